@@ -73,14 +73,21 @@ def specFix (t : CodeTable) (st : St) (pos : List Pos) (str : List Char) : Excep
     | some st' => .ok st'
     | none => .error .empty
 
-/-- `Structure.fix_seq` as a specification: one part per strand, each of the strand's length, then all
-    positions of all strands in order -/
+/-- the positions of a strand, by name -/
+def posOfStrandName (st : St) (n : String) : List Pos :=
+  match st.findStrand n with
+  | some s => posOfBases s.bases
+  | none => []
+
+/-- `Structure.fix_seq` as a specification: the string is split at `+` into one part per strand, each part
+    must have as many letters as its strand has positions, and then the positions of all strands, in order,
+    are fixed to the letters of all parts, in order -/
 def specFixStruct (t : CodeTable) (st : St) (e : StructE) (str : List Char) : Except Fix.Err St :=
   let parts := Notation.splitOn '+' str
-  let strands := e.strands.filterMap st.findStrand
+  let l := e.strands.zip parts
   if parts.length != e.strands.length then .error .strandCount
-  else if !(List.zip strands parts).all (fun (s, p) => s.len == p.length) then .error .length
-  else specFix t st (strands.flatMap (fun s => posOfBases s.bases)) parts.flatten
+  else if !l.all (fun np => (posOfStrandName st np.1).length == np.2.length) then .error .length
+  else specFix t st (l.flatMap (fun np => posOfStrandName st np.1)) parts.flatten
 
 /-! ### well-formedness of a loaded component -/
 
